@@ -65,7 +65,7 @@ func OpenKV(ctx context.Context, s3opts S3Options, subdir string) (*KV, error) {
 		UnmarshalUsesRegisteredTypes: true,
 	}
 	if s3opts.NodeCacheEntries > 0 {
-		cfg.NodeCache = mast.NewNodeCache(s3opts.NodeCacheEntries)
+		cfg.NodeCache = newNodeCache(s3opts.NodeCacheEntries)
 	}
 	if s3opts.EntriesPerNode > 0 {
 		cfg.BranchFactor = uint(s3opts.EntriesPerNode)
@@ -82,6 +82,19 @@ func OpenKV(ctx context.Context, s3opts S3Options, subdir string) (*KV, error) {
 	return &KV{
 		Root: s,
 	}, nil
+}
+
+// readCache is a node cache that serves reads only. mast also takes
+// a cached node as proof that the node is in the bucket and skips its upload,
+// but a vacuum (by this or any other connection) deletes nodes that no
+// version needs any more; a later version whose content is the same as that
+// of a deleted node would then refer to an object that is not there.
+type readCache struct{ mast.NodeCache }
+
+func (readCache) Contains(key interface{}) bool { return false }
+
+func newNodeCache(entries int) mast.NodeCache {
+	return readCache{mast.NewNodeCache(entries)}
 }
 
 type S3Options struct {
